@@ -5,6 +5,7 @@ verus! {
 //@INCLUDE prelude_object.rs
 //@INCLUDE opcodes.rs
 //@INCLUDE prelude_compiler.rs
+//@INCLUDE compiler_convert_assumed.rs
 
 /// meaning of a source operator (property-level table)
 pub open spec fn operator_sem(o: Operator) -> int {
@@ -75,6 +76,7 @@ impl Compiler {
             r is Err ==> final(self).instructions@ == old(self).instructions@ && final(self).last_instruction == old(self).last_instruction,
             r is Ok ==> fused_emitted(*old(self), *final(self), varname@, const_value as int, operator_sem(*operator)),
             sym_resolve(old(self).symbols, varname@) is None ==> r is Err,
+            gen_inv(*old(self)) ==> gen_inv(*final(self)),
             final(self).symbols == old(self).symbols, final(self).loop_contexts == old(self).loop_contexts, final(self).log@ == old(self).log@,
             old(self).constants@.len() <= final(self).constants@.len(),
             forall|i: int| 0 <= i < old(self).constants@.len() ==> final(self).constants@[i] == old(self).constants@[i],
@@ -108,7 +110,7 @@ impl Compiler {
     ///  * otherwise the code of l, then the code of r (ghost log: in that order), then one opcode byte whose
     ///    machine meaning is the operator's meaning.
     fn arm_infix(&mut self, left: &Box<Expr>, operator: &Operator, right: &Box<Expr>) -> (r: Result<(), Error>)
-        requires peephole_inv(*old(self)), operator_sem(*operator) != op_none()
+        requires gen_inv(*old(self)), operator_sem(*operator) != op_none()
         ensures
             //@VACUITY
             r is Ok ==> ({
@@ -122,7 +124,10 @@ impl Compiler {
                     _ => false,
                 };
                 let generic = {
-                    &&& final(self).log@ == old(self).log@.push(LogEntry::E(**left)).push(LogEntry::E(**right))
+                    &&& final(self).log@.len() == old(self).log@.len() + 2
+                    &&& final(self).log@[old(self).log@.len() as int].what == LogWhat::E(**left)
+                    &&& final(self).log@[old(self).log@.len() as int + 1].what == LogWhat::E(**right)
+                    &&& final(self).log@[old(self).log@.len() as int].end == final(self).log@[old(self).log@.len() as int + 1].start
                     &&& final(self).last_instruction is Some
                     &&& generic_sem(final(self).last_instruction->Some_0) == operator_sem(*operator)
                     &&& final(self).instructions@.len() > old(self).instructions@.len() + 2
@@ -131,8 +136,8 @@ impl Compiler {
                 };
                 (fused_lr && final(self).log@ == old(self).log@) || (fused_rl && final(self).log@ == old(self).log@) || generic
             }),
-            peephole_inv(*final(self)),
-            is_prefix(old(self).instructions@, final(self).instructions@),
+            peephole_inv(*final(self)), is_prefix(old(self).instructions@, final(self).instructions@),
+            final(self).loop_contexts@.len() == old(self).loop_contexts@.len(),
     {
 //@ARM file=compiler.rs fn=compile_expression impl=Compiler arm="Expr::Infix" rules="R1;R4"
         Ok(())
